@@ -108,7 +108,7 @@ type gctx struct {
 func GenPath(t *rapid.T, cfg GenCfg) *Path {
 	cfg = cfg.withDefaults()
 	g := &pgen{t: t, c: cfg}
-	g.budget = 2 + g.n(cfg.MaxNodes-1, "size")
+	g.budget = 2 + g.n(sz(cfg.MaxNodes-1), "size")
 	p := &Path{Strict: g.chance(45, "strict")}
 	if !cfg.AccessorsOnly && g.chance(cfg.PredTopPct, "predtop") {
 		p.Root = g.pred(gctx{})
@@ -524,6 +524,9 @@ var (
 func (c DocCfg) withDefaults() DocCfg {
 	if c.MaxDepth == 0 {
 		c.MaxDepth = 4
+		if thorough() {
+			c.MaxDepth = 5
+		}
 	}
 	if c.Keys == nil {
 		c.Keys = defKeys
@@ -536,6 +539,9 @@ func (c DocCfg) withDefaults() DocCfg {
 	}
 	if c.MaxArr == 0 {
 		c.MaxArr = 4
+		if thorough() {
+			c.MaxArr = 5
+		}
 	}
 	if c.MaxObj == 0 {
 		c.MaxObj = 3
